@@ -1172,6 +1172,36 @@ class Engine:
                     continue
                 out.extend(self.call_closure(args[0], [inner], s1))
             return out
+        if r0 in ("opt", "optval") and m in ("map_or_else", "map_or") and len(args) == 2 and args[1] and args[1][0] == "closure":
+            # Option::map_or_else(default, f) / map_or(default_value, f): f on the payload, or the default
+            inner = rv[2] if len(rv) > 2 else UNK
+            out = []
+            forks = self.opt_fork(st, rv[1]) if r0 == "opt" else [(st, bool(rv[1]))]
+            for s1, some in forks:
+                if some:
+                    out.extend(self.call_closure(args[1], [inner], s1))
+                elif m == "map_or":
+                    out.append(("n", s1, args[0]))
+                elif args[0] and args[0][0] == "closure":
+                    out.extend(self.call_closure(args[0], [], s1))
+                else:
+                    dn = H.render(H.strip(n["args"][0]))
+                    out.append(("n", s1, ("list", []) if dn.endswith(("Vec::new", "default", "Vec::default")) else UNK))
+            return out
+        if r0 in ("opt", "optval") and m in ("unwrap_or_default", "unwrap_or_else", "unwrap_or") and (m == "unwrap_or_default" or args):
+            inner = rv[2] if len(rv) > 2 else UNK
+            out = []
+            forks = self.opt_fork(st, rv[1]) if r0 == "opt" else [(st, bool(rv[1]))]
+            for s1, some in forks:
+                if some:
+                    out.append(("n", s1, inner))
+                elif m == "unwrap_or":
+                    out.append(("n", s1, args[0]))
+                elif m == "unwrap_or_else" and args[0] and args[0][0] == "closure":
+                    out.extend(self.call_closure(args[0], [], s1))
+                else:
+                    out.append(("n", s1, ("list", []) if "Vec<" in (n.get("ty") or "") else UNK))
+            return out
         if r0 in ("opt", "optval") and m in ("map", "and_then", "inspect") and args and args[0] and args[0][0] == "closure":
             # Option::map(|x| f(x)): the closure runs on the payload when there is one; Some-ness is unchanged
             inner = rv[2] if len(rv) > 2 else UNK
